@@ -50,7 +50,7 @@ BUDGET_S = {'quick': 240, 'thorough': 900}
 def bounds(tier):
     return {'top_level_lines': [3, 6], 'nested_block_lines': [2, 4], 'citations_per_line': '1 (2 for the goal line), values symbolic', 'insert_count': [1, 3],
             'operations': ['add_line_before', 'remove_line', 'replace_id', 'set_line', 'same on a copy'],
-            'method_sequences': {'goals': len(GOALS), 'max_steps': 2 if tier == 'quick' else 3}}
+            'method_sequences': {'goals': len(GOALS), 'max_steps': 3, 'length_3': '160 seeded sequences per goal' if tier == 'quick' else 'all'}}
 
 
 def setup(tier, seed):
@@ -518,11 +518,15 @@ def ItemID_(t):
 def run_methods(u, out, twin):
     _, tier, gi = u[:3]
     fo = len(u) > 3 and u[3] == 'fo'
-    L = 2 if tier == 'quick' else 3
+    L = 3
     goal = (FO_GOALS if fo else GOALS)[gi]
     STEPS_ = FO_STEPS if fo else STEPS
     for l in range(1, L + 1):
-        for seq in itertools.product(range(len(STEPS_)), repeat=l):
+        seqs = list(itertools.product(range(len(STEPS_)), repeat=l))
+        if l == 3 and tier == 'quick':
+            # quick: all sequences of length <= 2, plus a seeded sample of the length-3 sequences
+            seqs = random.Random('c13m-%s-%s' % (gi, fo)).sample(seqs, min(len(seqs), 160))
+        for seq in seqs:
             for cp in (None, l - 1):
                 out['evals'] += 1
                 out['keys'].add('m|%d|%s|%s' % (gi, seq, cp))
